@@ -324,6 +324,9 @@ def op_templates():
         T["partition-remove-empty-first-%s" % ax] = f_part2
 
         def f_norm(t, rng, ax=ax):
+            # norm is specified for non-negative values (a vector of mixed signs may sum to 0): skipped otherwise
+            if t.shape[0] and t.shape[1] and (t.matrix_data.data < 0).any():
+                return t, [], True
             return t.norm(axis=ax, inplace=True), [], True
         T["norm-inplace-%s" % ax] = f_norm
 
@@ -417,6 +420,19 @@ def model_ops_for(events, result, receiver, inplace, extra):
 
 
 def run_history(ctx, cap, templates, start_spec, route, names, impl_name, tags, profile=None, sparse=False):
+    """a table that comes to hold a non-finite value (all generated values are finite and every template keeps them
+    finite on the unchanged tree) is a failed case, not a crash of the harness"""
+    try:
+        return _run_history(ctx, cap, templates, start_spec, route, names, impl_name, tags, profile, sparse)
+    except OverflowError as e:
+        case = {"start": core.spec_obs(start_spec), "route": route, "ops": names, "impl": impl_name}
+        if sparse:
+            case["sparse"] = True
+        ctx.fail(case, "values_finite", list(tags) + [impl_name], detail={"error": str(e)})
+        return False
+
+
+def _run_history(ctx, cap, templates, start_spec, route, names, impl_name, tags, profile=None, sparse=False):
     """sparse: nothing is asked of any table until the history is over (every accessor may switch the layout and
     thereby end a sharing of arrays between tables; a user does not look after every call either)"""
     if profile:
